@@ -303,6 +303,17 @@ def main(argv):
                 elif axioms and isinstance(axioms[-1], list) and line.strip():
                     axioms[-1].append(line.strip())
     axiom_names = sorted({x.split(":")[0].strip() for a_ in axioms if isinstance(a_, list) for x in a_ if ":" in x})
+    # thorough tier: the independent checker re-checks the compiled property theorems and everything they depend on
+    coqchk = None
+    if tier == "thorough" and not missing:
+        rc, out, dt = run(["coqchk", "-silent", "-o", "-Q", COQ, "Verif", "Verif.props.%s" % pid], cwd=COQ, timeout=5400)
+        m = re.search(r"\* Axioms:(.*?)\n\s*\n\* Constants", out, re.S)
+        ax = m.group(1).strip() if m else "?"
+        coqchk = {"exit": rc, "seconds": round(dt, 1), "axioms": ax,
+                  "type_in_type": "type-in-type: <none>" in out, "unsafe_fixpoints": "unsafe (co)fixpoints: <none>" in out,
+                  "assumed_positivity": "positivity is assumed: <none>" in out}
+        if rc != 0 or ax != "<none>" or not (coqchk["type_in_type"] and coqchk["unsafe_fixpoints"] and coqchk["assumed_positivity"]):
+            problems.append({"kind": "proof", "name": "coqchk Verif.props.%s" % pid, "detail": out[-1500:]})
 
     # harness
     report = None
@@ -387,6 +398,7 @@ def main(argv):
         "distribution": report["distribution"] if report else {},
         "oracle_failures": len(failures), "unexplained_failures": len(unexplained),
         "known_findings_seen": sorted(t for t in seen_tags if t in open_tags),
+        "coqchk": coqchk if coqchk else "thorough tier only",
         "coq_build_s": round(st.get("coq_s", 0), 1), "harness_build_s": round(st.get("harness_s", 0), 1),
     }
     if report and report.get("extra"):
